@@ -34,6 +34,12 @@ KNOWN_TEXT = {
         "plan.Visitor keeps per-operation state across Plan calls (fieldPlanners / plannerFields are created in NewVisitor and "
         "never reset): a plan.Planner that planned another operation before panics (index out of range in assignDefer) or yields "
         "a plan with extra CoordinateDependencies; ExecutionEngine.getCachedPlan creates a planner per plan and is not affected",
+    "dedup-off-duplicate-fetch-error":
+        "with postprocess.DisableDeduplicateSingleFetches the duplicate fetches that de-duplication would merge each report their "
+        "failure: `{ media { ... on Book { author { reviews { body } } } ... on Movie { author { reviews { body } } } } }` (arp, "
+        "reviews subgraph answers with an error) carries \"Failed to fetch from Subgraph 'reviews' at Path 'media.@.author'.\" once "
+        "with de-duplication and twice without; data and the SET of (message, path) error pairs are equal. The switch exists in "
+        "the postprocess package only (the engine has no setting for it)",
     "list-literal-variable-default-dropped":
         "variable extraction replaces a list/object literal that contains a variable by a new variable whose value is built "
         "from the supplied variables only: `query($v: String = \"hi\"){ topProducts { fmt(tags: [$v, \"z\"]) } }` with {} sends "
@@ -45,6 +51,8 @@ def classify(case, detail):
     d = detail
     if d.startswith("plan_deterministic/reused"):
         return "planner-reuse-stale-state"
+    if d.startswith("history_transparent dup_error_only=t dedup_off=t "):
+        return "dedup-off-duplicate-fetch-error"
     if d.startswith("normalize_semantic"):
         m = re.search(r'op="(.*?)" vars=', d)
         op = m.group(1) if m else ""
@@ -112,6 +120,9 @@ def _batches(chk, exe, model, state, samples, quick):
     procs = 3 if quick else 8
     # ---- corpus first
     b = vlib.run_batch(chk, "%s dedup -in %s -out {out}" % (exe, os.path.join(corpus, "dedup.tsv")), model, "corpus_dedup")
+    if b:
+        vlib.digest_batch(chk, b[0], b[1], classify, state)
+    b = vlib.run_batch(chk, "%s histcorpus -in %s -out {out}" % (exe, os.path.join(corpus, "hist.tsv")), model, "corpus_hist")
     if b:
         vlib.digest_batch(chk, b[0], b[1], classify, state)
     b = vlib.run_batch(chk, "%s renamecorpus -in %s -out {out}" % (exe, os.path.join(corpus, "rename.tsv")), model, "corpus_rename")
